@@ -7,6 +7,7 @@ import (
 	"os"
 	"strconv"
 
+	"verifharness/drv/c14"
 	"verifharness/drv/c15"
 	"verifharness/drv/c17"
 	"verifharness/drv/c19"
@@ -43,6 +44,10 @@ func main() {
 		c17.Run(os.Args[3], os.Args[2])
 	case "c17conc":
 		c17.RunConc(os.Args[3], os.Args[2])
+	case "c14":
+		c14.Run(os.Args[2], os.Args[3])
+	case "c14stress":
+		c14.Stress(os.Args[2], atoi(os.Args[3]))
 	case "c19x":
 		a := os.Args
 		c19.Explicit(a[2], a[3], atoi(a[4]), atoi(a[5]), atoi(a[6]), a[7] == "1")
